@@ -110,4 +110,16 @@ theorem C10_class_membership (mol : Mol) (hnd : mol.keys.Nodup) (hc : Closed mol
 example : ((squash ex3).atoms.map fun a => (a.key, a.fragid)) = [(0, [0]), (1, [0, 1, 2]), (3, [1]), (5, [2])] := by
   decide +kernel
 
+/-- **in the resolver's terms**: in every resolution step, every atom instantiated for a coarse node is represented in
+    the molecule phase A returns — under the key it was merged into — by an atom that lists that coarse node (and every
+    other one the atom belonged to) and the template position it is a copy of -/
+theorem C10_resolver_membership (cp : Desc → Desc → Bool) (allAtom : Bool) (mg : Meta) (fd : FragDict) (hfd : FragsWF fd)
+    (m0 m1 : Mol) (inst : List (Key × List Key))
+    (hd : disconnected mg fd = .ok (m0, inst)) (hcn : connect cp allAtom mg m0 inst = .ok m1) :
+    phaseA cp allAtom mg fd = .ok (squash m1, inst.map (·.1)) ∧
+    ∀ a ∈ m1.atoms, ∃ b ∈ (squash m1).atoms, b.key = rep (record m1) a.key ∧
+      (∀ f ∈ a.fragid, f ∈ b.fragid) ∧ (∀ p ∈ a.mapping, p ∈ b.mapping) := by
+  obtain ⟨hnd, hc, _⟩ := phaseA_wellformed cp allAtom mg fd hfd m0 m1 inst hd hcn
+  exact ⟨phaseA_eq cp allAtom mg fd m0 m1 inst hd hcn, fun a ha => C10_class_membership m1 hnd hc a ha⟩
+
 end CGV.C10
